@@ -135,6 +135,37 @@ def gen_grammar(rnd):
     return name, g
 
 
+def unnamed_mexpr_vs_free_nonterminal(rnd, cg, lits):
+    """Q <U>="..{<T> t}.." [in start]: (t OP <T>) -- a quantifier without variable name whose match expression binds a
+    variable that carries the name the parser would invent first for the free nonterminal <T> (its bare name): the
+    invented name has to avoid it, otherwise the universal closure over <T> is captured by the match expression"""
+    fg = fml.FGen(rnd, cg, lits, dict(numq=0.0, unused=0.0, mexpr_depth=pick(rnd, [2, 2, 3])))
+    nts = [k for k in cg if k != "<start>"]
+    for _ in range(10):
+        U = pick(rnd, nts)
+        mx, binds = fg.mexpr_for(U)
+        if not mx or not binds:
+            continue
+        x, T = pick(rnd, binds)
+        bare = T[1:-1]
+        if not bare.isidentifier() or bare in S.RESERVED_NAMES or T == U:
+            continue
+        mx = [[el[0], el[1], bare] if el[0] == "bind" and el[2] == x else
+              ([el[0], el[1], "m" + el[2][1:]] if el[0] == "bind" else el) for el in mx]
+        if any(el[0] == "opt" for el in mx):
+            continue
+        op = pick(rnd, ["=", "=", "str.prefixof", "str.contains"])
+        a, b = ["ref", ["v", bare]], ["ref", ["nt", T]]
+        if chance(rnd, 0.5):
+            a, b = b, a
+        atom = ["smt", ["app", "i", "=", a, b]] if op == "=" else ["smt", ["app", "p", op, a, b]]
+        if chance(rnd, 0.4):
+            atom = ["not", atom]
+        q = pick(rnd, ["forall", "exists"])
+        return [q, U, None, None if chance(rnd, 0.6) else ["v", "start"], mx, atom]
+    return None
+
+
 def generate(rnd, tier):
     for _ in range(8):
         name, g = gen_grammar(rnd)
@@ -165,6 +196,10 @@ def generate(rnd, tier):
         fs, _ = S.features(F)
         if fs & set(S.SUGAR_FEATURES) and len(S.pr_sugar(F)) < 700:
             break
+    if chance(rnd, 0.04):
+        T2 = unnamed_mexpr_vs_free_nonterminal(rnd, cg, lits)
+        if T2 is not None:
+            F = T2
     case = {"grammar": g, "gname": name, "trees": trees, "formula": F}
     if chance(rnd, 0.1):
         # `const c: <start>;` -- the omitted `in` and the closure of free nonterminals then refer to c
